@@ -1,5 +1,5 @@
 """C10 - configurations encode to bounded TLV blocks that decode to the same operations."""
-from itertools import combinations, product
+from itertools import combinations, permutations, product
 
 from ..core import Outcome
 from ..ref import tlvcfg as T
@@ -56,6 +56,23 @@ def cases(ctx):
             if any(s[0] in dk and s[1] is not None for s in slots):
                 continue
             yield ("dict", combo)
+            if k > 1:
+                # dictionaries remember insertion order: the same entries inserted in descending order
+                yield ("dict", tuple(reversed(combo)))
+    # every insertion order of up to 4 entries over a reduced universe (2 keys x 2 value ids x {delete-key,
+    # delete-value, set 0 bytes, set 50 bytes}): sortedness must not depend on the order the caller built the dict in
+    RU = [i for i, ((k_, v_), ln_) in enumerate(U) if k_ in KEYS[:2] and v_ in (None,) + tuple(VIDS[:2]) and ln_ in (None, 0, 50)]
+    for k in range(2, 5):
+        for perm in permutations(RU, k):
+            if list(perm) == sorted(perm) or list(perm) == sorted(perm, reverse=True):
+                continue
+            slots = [U[i][0] for i in perm]
+            if len(set(slots)) != len(slots):
+                continue
+            dk = {s_[0] for s_ in slots if s_[1] is None}
+            if any(s_[0] in dk and s_[1] is not None for s_ in slots):
+                continue
+            yield ("dict", perm)
     m = 4 if ctx.quick else 5
     for k in range(1, m + 1):
         for lens in product(SUMLENS, repeat=k):
@@ -186,7 +203,7 @@ def run_case(ctx, case):
         for i in case[1]:
             (k, v), ln = U[i]
             conf[(k, v)] = None if ln is None else content(k, v or 0, ln)
-        o = Outcome("ok", bool(conf), key=("dict", tuple(sorted(case[1]))))
+        o = Outcome("ok", bool(conf), key=("dict", tuple(case[1])))
         return check(o, conf)
     if kind == "sum":
         _, mode, lens = case
